@@ -1075,8 +1075,6 @@ struct const_subarray : array_types<T, D, ElementPtr, Layout> {
  public:
 	const_subarray(const_subarray&&) noexcept = default;  // lints(readability-redundant-access-specifiers)
 
-	constexpr auto       elements()      & ->       elements_range { return elements_aux_(); }
-	constexpr auto       elements()     && ->       elements_range { return elements_aux_(); }
 	constexpr auto       elements() const&                         { return const_elements_range(this->base(), this->layout()); }
 	constexpr auto const_elements() const  -> const_elements_range { return elements_aux_(); }
 
@@ -1961,6 +1959,11 @@ class subarray : public const_subarray<T, D, ElementPtr, Layout> {
 	// BOOST_MULTI_HD constexpr auto operator&() const& {return subarray_ptr<const_subarray, Layout>{this->base_, this->layout()};}  // NOLINT(google-runtime-operator) extend semantics  //NOSONAR
 
 	using const_subarray<T, D, ElementPtr, Layout>::const_subarray;
+
+	// the mutable elements range belongs to the mutable view; templates because the D == 0 base has no elements()
+	template<class Dummy = void, std::enable_if_t<sizeof(Dummy*) && (D != 0), int> =0> constexpr auto elements() const& { return const_subarray<T, D, ElementPtr, Layout>::elements(); }  // NOLINT(modernize-use-constraints) TODO(correaa) for C++20
+	template<class Dummy = void, std::enable_if_t<sizeof(Dummy*) && (D != 0), int> =0> constexpr auto elements()     && { return this->elements_aux_(); }  // NOLINT(modernize-use-constraints) TODO(correaa) for C++20
+	template<class Dummy = void, std::enable_if_t<sizeof(Dummy*) && (D != 0), int> =0> constexpr auto elements()      & { return this->elements_aux_(); }  // NOLINT(modernize-use-constraints) TODO(correaa) for C++20
 
 	using const_subarray<T, D, ElementPtr, Layout>::begin;
 	constexpr auto begin() && { return this->begin_aux_(); }
@@ -2950,8 +2953,6 @@ struct const_subarray<T, 1, ElementPtr, Layout>  // NOLINT(fuchsia-multiple-inhe
 	constexpr auto elements_aux_() const {return elements_range{this->base_, this->layout()};}
 
  public:
-	constexpr auto  elements()      & ->       elements_range {return elements_aux_();}
-	constexpr auto  elements()     && ->       elements_range {return elements_aux_();}
 	constexpr auto  elements() const& -> const_elements_range {return const_elements_range{this->base(), this->layout()};}  // TODO(correaa) simplify
 
 	constexpr auto celements() const  -> const_elements_range {return elements_aux_();}
